@@ -10,6 +10,7 @@ class FeedServer:
         self.sock.listen(4)
         self.port = self.sock.getsockname()[1]
         self.conn = None
+        self._lock = threading.Lock()
 
     def accept(self, timeout=10.0):
         self.sock.settimeout(timeout)
@@ -21,7 +22,39 @@ class FeedServer:
         return True
 
     def send(self, data: bytes):
-        self.conn.sendall(data)
+        with self._lock:
+            self.conn.sendall(data)
+
+    def flood(self, lines, every=0.004):
+        """keep sending `lines` (round robin, one every `every` seconds) from a background thread
+        until stop_flood() / close(): a feed that never pauses for longer than the clients' 50 ms
+        read timeout"""
+        self._flood_stop = threading.Event()
+
+        def run():
+            i = 0
+            while not self._flood_stop.is_set():
+                try:
+                    c = self.conn
+                    if c is None:
+                        time.sleep(0.05)
+                        continue
+                    with self._lock:
+                        c.settimeout(1.0)
+                        c.sendall(lines[i % len(lines)])
+                except (OSError, socket.timeout):
+                    time.sleep(0.05)
+                i += 1
+                time.sleep(every)
+
+        self._flood_thread = threading.Thread(target=run, daemon=True)
+        self._flood_thread.start()
+
+    def stop_flood(self):
+        ev = getattr(self, "_flood_stop", None)
+        if ev is not None:
+            ev.set()
+            self._flood_thread.join(2.0)
 
     def send_segments(self, segments):
         """segments: list of (bytes, delay_after_seconds)"""
@@ -109,6 +142,7 @@ class FeedServer:
         return False
 
     def close(self):
+        self.stop_flood()
         self.drop()
         self.unstall()
         self.sock.close()
